@@ -28,6 +28,9 @@ def main(argv):
         del argv[i:i + 2]
     if tier not in ('quick', 'thorough'):
         tier = 'quick'
+    if tier == 'thorough':
+        # read by sa.strabs at import time: deeper inlining, more disjuncts, separate cache entries
+        os.environ['SA_THOROUGH'] = '1'
     if not argv:
         print(__doc__)
         return 2
